@@ -780,16 +780,16 @@ def r8_reopen_appends(prog, rep: Report, sf: StorageFacts):
 
 def run(prog: Program, rep: Report):
     sf = StorageFacts(prog)
-    r1_lock(prog, rep, sf)
-    r2_r3_r6(prog, rep, sf)
-    r4_iter(prog, rep, sf)
-    r5_reset(prog, rep, sf)
-    r7_reader(prog, rep, sf)
-    r8_reopen_appends(prog, rep, sf)
-    r9_no_stale_handles(prog, rep, sf)
-    r10_derived(prog, rep, sf)
+    rep.attempt(lambda: r1_lock(prog, rep, sf))
+    rep.attempt(lambda: r2_r3_r6(prog, rep, sf))
+    rep.attempt(lambda: r4_iter(prog, rep, sf))
+    rep.attempt(lambda: r5_reset(prog, rep, sf))
+    rep.attempt(lambda: r7_reader(prog, rep, sf))
+    rep.attempt(lambda: r8_reopen_appends(prog, rep, sf))
+    rep.attempt(lambda: r9_no_stale_handles(prog, rep, sf))
+    rep.attempt(lambda: r10_derived(prog, rep, sf))
     from .ownership import rule_no_class_state
-    rule_no_class_state(prog, rep, "C14.R11", [sf.cls])
+    rep.attempt(lambda: rule_no_class_state(prog, rep, "C14.R11", [sf.cls]))
 
 
 # ---------------------------------------------------------------------------------------------- R9
